@@ -1,8 +1,11 @@
 //! C19 — a step on arbitrary code bytes and state terminates with success or an error.
+use super::common::{call, Call};
 use crate::hw::gen::*;
 use crate::hw::*;
 use crate::sup::*;
 use crate::util::*;
+use ax_x86::axecutor::Axecutor;
+use ax_x86::state::registers::SupportedRegister as SR;
 use iced_x86::Code;
 use serde_json::json;
 
@@ -86,6 +89,157 @@ impl C19 {
     }
 }
 
+const TOP: u64 = u64::MAX;
+
+impl C19 {
+    /// "memory layouts" of the quantifier beyond the hardware-mirrored one: code, data and stack areas at the
+    /// ends of the address space (ending exactly at 2^64, starting at 0 or 0x1000, in the non-canonical hole),
+    /// zero-length areas, register values on every area edge, and a few steps of history instead of one.
+    fn edge_batch(&self, k: u64, rng: &mut Rng, col: &mut Collector) {
+        for j in 0..(self.batch / 8).max(1) {
+            let code_len = *rng.pick(&[16u64, 32, 0x40, 0x1000]);
+            let code_at = match rng.below(8) {
+                0..=2 => TOP - code_len + 1,
+                3 => 0x1000,
+                4 => 0x7fff_ffff_f000,
+                5 => 0xffff_8000_0000_0000,
+                6 => 0x8000_0000_0000_0000 - code_len,
+                _ => 0xffff_ffff_0000_0000 - code_len,
+            };
+            // code = a few generated instructions back to back, then filler
+            let mut code: Vec<u8> = Vec::new();
+            let mut first_len = 0usize;
+            for n in 0..rng.range(1, 4) {
+                let (b, _) = self.gen_bytes(rng);
+                let b = match decode(&b, 0) {
+                    Some(i) => b[..i.len()].to_vec(),
+                    None => b,
+                };
+                if n == 0 {
+                    first_len = b.len();
+                }
+                code.extend_from_slice(&b);
+            }
+            code.truncate(code_len as usize);
+            first_len = first_len.min(code.len());
+            // placement: the instruction stream ends exactly at the end of the area, starts at its start, or the
+            // first instruction alone ends at the end of the area (its successor address is the end / wraps to 0)
+            let mut area = rng.bytes(code_len as usize);
+            let off = match rng.below(4) {
+                0 => 0,
+                1 => code_len as usize - first_len,
+                _ => code_len as usize - code.len(),
+            };
+            let n = code.len().min(code_len as usize - off);
+            area[off..off + n].copy_from_slice(&code[..n]);
+            let rip = code_at.wrapping_add(off as u64);
+            let desc = format!("edge layout: code [{:#x},+{:#x}) rip {:#x} bytes {}", code_at, code_len, rip, hex(&code));
+            col.publish("edge", &desc);
+            col.progress.set_raw(1, &code);
+            // a code area that ends at 2^64 cannot be given to the constructor (its end address is not a u64):
+            // it is mapped as an executable area of a machine whose initial code lies elsewhere
+            let made = if code_at.checked_add(code_len).is_some() && rng.below(4) != 0 {
+                call(|| Axecutor::new(&area, code_at, rip))
+            } else {
+                call(|| {
+                    let mut ax = Axecutor::new(&[0x90u8; 8], 0x5555_0000, 0x5555_0000)?;
+                    ax.mem_init_area(code_at, area.clone())?;
+                    ax.mem_prot(code_at, 5)?;
+                    ax.reg_write_64(SR::RIP, rip)?;
+                    Ok(ax)
+                })
+            };
+            let mut ax = match made {
+                Call::Ok(a) => a,
+                other => {
+                    col.count(&format!("edge_construct_{}", other.kind()), 1);
+                    continue;
+                }
+            };
+            // further areas; every attempt may legitimately be refused
+            let mut edges: Vec<u64> = vec![0, code_at, code_at.wrapping_add(code_len), rip];
+            let cands: [(u64, u64, u32); 9] = [
+                (TOP - 0xfff, 0x1000, 3),
+                (TOP - 0x1fff, 0x1000, 3),
+                (0, 0x1000, 3),
+                (0x1000, 0x1000, 3),
+                (0x2000, 0, 3),
+                (0x7fff_ffff_e000, 0x1000, 3),
+                (0x8000_0000_0000_0000, 0x1000, 1),
+                (TOP - 0xf, 0x10, 3),
+                (TOP, 1, 3),
+            ];
+            for c in cands.iter() {
+                if rng.below(3) == 0 {
+                    continue;
+                }
+                let r = call(|| {
+                    ax.mem_init_zero(c.0, c.1)?;
+                    ax.mem_prot(c.0, c.2)
+                });
+                if r.is_ok() {
+                    edges.push(c.0);
+                    edges.push(c.0.wrapping_add(c.1));
+                }
+            }
+            if rng.below(3) == 0 {
+                let _ = call(|| ax.init_stack(*rng.pick(&[0u64, 8, 0x18, 0x1000])));
+                if let Ok(v) = ax.reg_read_64(SR::RSP) {
+                    edges.push(v);
+                }
+            }
+            let mut edge_val = |rng: &mut Rng| -> u64 {
+                let e = *rng.pick(&edges);
+                let d = *rng.pick(&[0i64, 0, -1, 1, -2, -4, -8, 8, -16, 16, -15, -7, 7, -0x80, 0x7f]);
+                e.wrapping_add(d as u64)
+            };
+            for r in GPR64.iter() {
+                let v = match rng.below(8) {
+                    0..=4 => edge_val(rng),
+                    5 => *rng.pick(&[0u64, 1, TOP, i64::MAX as u64, i64::MIN as u64, 0xffff_ffff, 0x8000_0000, 8, 0x10]),
+                    _ => rng.val(),
+                };
+                let _ = ax.reg_write_64(sr(*r), v);
+            }
+            for i in 0..16u32 {
+                let _ = ax.reg_write_128(sr(iced_x86::Register::XMM0 + i), rng.val128());
+            }
+            ax.verif_set_rflags(rng.next() & (F_STATUS | F_DF));
+            if rng.below(3) == 0 {
+                ax.write_fs(edge_val(rng));
+                ax.write_gs(edge_val(rng));
+            }
+            let steps = *rng.pick(&[1u32, 1, 2, 3, 6]);
+            let mut outcome = "ok";
+            for s in 0..steps {
+                let r = call(|| block_on(ax.step()));
+                col.eval(1);
+                match &r {
+                    Call::Ok(true) => {}
+                    Call::Ok(false) => {
+                        outcome = "finished";
+                        break;
+                    }
+                    Call::Err { .. } => {
+                        outcome = "err";
+                        break;
+                    }
+                    Call::Panic(p) => {
+                        col.count("panic", 1);
+                        let detail = format!("step() #{} panicked at {}:{}: {}", s, p.file, p.line, p.msg.chars().take(200).collect::<String>());
+                        col.violation_case(&format!("panic:{}", panic_sig(p)), k, format!("{} :: {}", desc, detail), json!({"layout": desc, "batch_index": j, "detail": detail}));
+                        outcome = "panic";
+                        break;
+                    }
+                }
+            }
+            col.count(&format!("edge_{}", outcome), 1);
+            col.distinct_key(&format!("edge|{:#x}|{}|{}", code_at >> 44, off == 0, outcome));
+        }
+        col.set_insert("classes", "edge-layouts");
+    }
+}
+
 impl Monitor for C19 {
     fn total_cases(&self) -> u64 {
         // one case = a batch of inputs
@@ -97,6 +251,9 @@ impl Monitor for C19 {
     }
 
     fn run_case(&mut self, k: u64, rng: &mut Rng, col: &mut Collector) {
+        if k % 5 == 4 {
+            return self.edge_batch(k, rng, col);
+        }
         let rip = run::CODE_RIP;
         let mut pre = self.base.clone();
         for j in 0..self.batch {
